@@ -307,6 +307,9 @@ func (c *Ctx) Finish(verifDir string, explanation string, t0 time.Time, seed int
 			"go1.26.8 front end", "hand-confirmed rule tables in /verif/checker/rules_*.go"},
 		"notes": c.Notes,
 	}
+	// what the analysed functions rely on but no rule looked into: module
+	// functions they call directly (observers and error constructors aside)
+	cov["callees_not_analysed"] = c.calleesNotAnalysed()
 	for k, v := range extra {
 		cov[k] = v
 	}
